@@ -184,6 +184,22 @@ func runC17(c *ev.Ctx) {
 			c.Cut(fmt.Sprintf("Sort-panic: %d of %d cases", done, total))
 		}
 	}
+	if !c.Expired() {
+		c17HistoriesRun(c)
+	}
+}
+
+// c17Histories: Sort inside operation histories (Sort, then Insert/Replace/Reverse/..., then Sort again ...).
+func c17HistoriesRun(c *ev.Ctx) {
+	d := 5
+	if c.Thorough() {
+		d = 6
+	}
+	r1 := focusedListHistories(c, "Sort within list histories (ints)", "core", []interface{}{1, 2, 3}, d, anySorted)
+	r2 := focusedListHistories(c, "Sort within list histories (strings)", "core", []interface{}{"a", "b"}, d, anySorted)
+	c.Set("history_subspace", map[string]interface{}{"int_states": r1.States, "string_states": r2.States, "depth": r1.DepthCompleted, "transitions": c.Trans(),
+		"note": "operation alphabet of C05 (incl. Sort, Insert, Replace, Reverse, Delete, SubList, Concat and an optional observer call); a state is judged once some list in it has been sorted"})
+	c.Eval(int(c.Trans()))
 }
 
 func namesOf(dg []int) []string {
